@@ -133,6 +133,7 @@ type ChanObj struct {
 	et      types.Type
 	site    string
 	closeVC []int
+	freed   [][]int
 	// rendezvous bookkeeping lives in the scheduler (blocked senders / receivers are threads)
 	sendq []*Thread
 	recvq []*Thread
@@ -209,6 +210,9 @@ func (m *Machine) newCell(t types.Type, site string) *Cell {
 	c.id = m.nextObj
 	c.site = site
 	m.setRoot(c, c)
+	if m.curFn != nil && m.isGhostFn(m.curFn) {
+		c.ghost = true
+	}
 	return c
 }
 
@@ -264,6 +268,9 @@ func (m *Machine) mkArrayCell(et types.Type, n *Term, site string) *Cell {
 	c.id = m.nextObj
 	c.site = site
 	m.setRoot(c, c)
+	if m.curFn != nil && m.isGhostFn(m.curFn) {
+		c.ghost = true
+	}
 	return c
 }
 
